@@ -977,3 +977,105 @@ func NormLess(v ssa.Value) (lo, hi ssa.Value, strict bool, ok bool) {
 	}
 	return lo, hi, strict, true
 }
+
+// returnDirect: the value a return hands back in position v, looking through the defer-spill pattern
+// (*res = e; rundefers; t = *res; return t) but not through phis: the merged value itself.
+func returnDirect(r *ssa.Return, v ssa.Value) ssa.Value {
+	v = Strip(v)
+	u, ok := v.(*ssa.UnOp)
+	if !ok || u.Op != token.MUL {
+		return v
+	}
+	a, ok := u.X.(*ssa.Alloc)
+	if !ok || cellEscapesBeyondDefer(a) {
+		return v
+	}
+	var at ssa.Instruction = u
+	for _, in := range r.Block().Instrs {
+		if rd, ok := in.(*ssa.RunDefers); ok {
+			at = rd
+			break
+		}
+	}
+	st := ReachingStores(a, at)
+	if len(st) == 1 && st[0] != nil {
+		return Strip(st[0].Val)
+	}
+	return v
+}
+
+// IntC: the fact "x op k" for an integer x compared with constants, whichever way the program spells a test that
+// implies it (`len(s) == 0`, `len(s) < 1`, `!(len(s) > 0)`, `0 >= len(s)` all establish len(s) <= 0 …). An edge
+// of a comparison `x op' c` establishes the fact iff every integer admitted on that edge satisfies it; nonNeg
+// restricts x to values >= 0 (lengths, counts).
+func IntC(desc string, x VP, op token.Token, k int64, nonNeg bool) CP {
+	holds := func(o token.Token, v, c int64) bool {
+		switch o {
+		case token.EQL:
+			return v == c
+		case token.NEQ:
+			return v != c
+		case token.LSS:
+			return v < c
+		case token.LEQ:
+			return v <= c
+		case token.GTR:
+			return v > c
+		case token.GEQ:
+			return v >= c
+		}
+		return false
+	}
+	flipOp := map[token.Token]token.Token{token.LSS: token.GTR, token.GTR: token.LSS, token.LEQ: token.GEQ, token.GEQ: token.LEQ, token.EQL: token.EQL, token.NEQ: token.NEQ}
+	return CP{desc, func(c ssa.Value) (bool, bool) {
+		c2, flip := stripNot(c)
+		bo, ok := c2.(*ssa.BinOp)
+		if !ok {
+			return false, false
+		}
+		o := bo.Op
+		var cst int64
+		if kk, isC := ConstInt(bo.Y); isC && x(bo.X) {
+			cst = kk
+		} else if kk, isC := ConstInt(bo.X); isC && x(bo.Y) {
+			cst = kk
+			o = flipOp[o]
+		} else {
+			return false, false
+		}
+		if _, known := flipOp[o]; !known {
+			return false, false
+		}
+		lo, hi := cst, k
+		if lo > hi {
+			lo, hi = hi, lo
+		}
+		implied := func(edgeTrue bool) bool {
+			any := false
+			for v := lo - 3; v <= hi+3; v++ {
+				if nonNeg && v < 0 {
+					continue
+				}
+				if holds(o, v, cst) != edgeTrue {
+					continue
+				}
+				any = true
+				if !holds(op, v, k) {
+					return false
+				}
+			}
+			return any
+		}
+		t, f := implied(true), implied(false)
+		if flip {
+			t, f = f, t
+		}
+		switch {
+		case t && !f:
+			return true, true
+		case f && !t:
+			return true, false
+		}
+		return false, false
+	}}
+}
